@@ -140,6 +140,8 @@ def run(tier, seed, model):
             break
     findings_stream(camp)
     batch.resolve(camp, "C02")
+    if not camp.oracle_failures:
+        long_updates(camp, rng)
     if model is not None:
         theorem_samples(camp, model, rng, 40 if tier == "quick" else 1500)
     camp.rule = ("random framebuffer contents (palettes of 1..200 colours and noise) encoded by an RFC 6143 encoder written "
@@ -153,6 +155,53 @@ def run(tier, seed, model):
                  "the extracted Coq spec and are fed to the real client - the theorem statements are checked against the "
                  "implementation, not only against the model")
     return camp
+
+
+def long_updates(camp, rng):
+    """hundreds of decode steps inside ONE received segment (a hextile rectangle of 17x17 tiles; an update of 300 small raw
+    rectangles): the framebuffer must be reproduced however many tiles or rectangles a segment carries"""
+    from collections import Counter
+    fmt = rfbgen.RGB32
+    W = H = 272
+    hs = b"RFB 003.008\n\x01\x01\0\0\0\0" + struct.pack("!HH16sI", W, H, fmt.block(), 0)
+    cols = [0x102030, 0x405060, 0x0000FF]
+    rows = [[cols[((x // 16) + (y // 16)) % 2] if (x % 16, y % 16) != (3, 4) else cols[2] for x in range(W)] for y in range(H)]
+    stats = Counter()
+    hexrect = struct.pack("!HHHHi", 0, 0, W, H, 5) + rfbgen.enc_hextile(fmt, rows, rng, stats)
+    streams = [("a hextile rectangle of 289 tiles", b"\0\0\0\x01" + hexrect, rows)]
+    canvas = [[0] * 64 for _ in range(64)]
+    body = b""
+    for _ in range(300):
+        x, y, v = rng.randrange(62), rng.randrange(63), rng.getrandbits(24)
+        canvas[y][x] = canvas[y][x + 1] = v
+        body += struct.pack("!HHHHi", x, y, 2, 1, 0) + fmt.pix(v) * 2
+    full = struct.pack("!HHHHi", 0, 0, 64, 64, 0) + b"\0" * (64 * 64 * 4)
+    streams.append(("an update of 301 raw rectangles", b"\0\0" + struct.pack("!H", 301) + full + body, canvas))
+    for name, msg, want_rows in streams:
+        cfg = Cfg(variant=1, nocursor=True)
+        r = run_real(cfg, [hs, msg + b"\x02"])
+        camp.evaluations += 1
+        camp.count("long-update")
+        camp.nontrivial.add(("long", name))
+        hh, ww = len(want_rows), len(want_rows[0])
+        want = b"".join(bytes(fmt.rgb(v)) for row in want_rows for v in row)
+        got = r["screen"]
+        why = None
+        if r["final"][0] != "idle" or r["final"][1] != 0:
+            why = f"the client ends {r['final'][:2]}"
+        elif not r["events"] or r["events"][-1] != ("Bell",):
+            why = "the Bell behind the update was not seen"
+        elif got is None or got[0] != (max(ww, 0), hh) and got[0] != (W, H):
+            why = f"screen size {got and got[0]}"
+        else:
+            from PIL import Image
+            im = Image.frombytes("RGB", got[0], got[1]).crop((0, 0, ww, hh)).tobytes()
+            if im != want:
+                why = "the screen differs from the framebuffer the server encoded"
+        if why:
+            camp.oracle_failures.append({"kind": "oracle", "property": "C02", "case": {"long_update": name},
+                                         "what": f"{name} delivered in one segment: {why}"})
+            return
 
 
 # ----------------------------------------------------------------------------------------------------------------
@@ -257,6 +306,8 @@ def theorem_samples(camp, model, rng, n):
 
 
 def replay(payload):
+    if "long_update" in payload.get("case", {}):
+        return True, "replay: long single-segment update; re-run ./check C02"
     case = payload["case"]
     cfg = cfg_from_payload(case["cfg"])
     chunks = [bytes.fromhex(c) for c in case["chunks"]]
